@@ -42,7 +42,7 @@ ASSUMPTIONS = ["only syntactically valid header fields are generated (invalid on
 ALPHA = "28293c3e402c3b3a5c222e5b5d200d09612be9"
 INJ_LIBS = ("headerbody.o hfield.o newfield.o quote.o control.o date822fmt.o constmap.o qmail.o case.a fd.a wait.a open.a getln.a sig.a "
             "getopt.a datetime.a token822.o env.a stralloc.a substdio.a error.a str.a fs.a auto_qmail.o")
-EXCLUDE_ANGLE_COMMENT = not os.environ.get("VERIF_C17_INCLUDE_ANGLE_COMMENT")    # set it to let the check rediscover the finding
+EXCLUDE_ANGLE_COMMENT = False   # the defect was repaired by fix: commit (token822 angle comment, see known-findings.txt): always generated (was: not os.environ.get("VERIF_C17_INCLUDE_ANGLE_COMMENT"))    # set it to let the check rediscover the finding
 FIXTIME = 1000000000
 FIXPID = 4711
 
